@@ -103,6 +103,9 @@ class Probe(Component):
     def on_time_step_prepare(self, event):
         if self.crash_at is not None and self.steps_started == self.crash_at:
             raise SimulatedCrash()
+        if self.steps_started == 0:
+            # the table right after the initial population was created (before anything stepped)
+            self.digests.append("init:" + table_digest(self.sim._population.get_population(True)))
         self.steps_started += 1
         self._dig("prepare", event)
 
@@ -176,17 +179,30 @@ def main():
             comps = components.build(spec) + [probe]
             kw = dict(components=comps, configuration=components.configuration(spec),
                       plugin_configuration=components.plugins(spec), logging_verbosity=0)
-            if mode.startswith("interactive"):
+            if mode.startswith("interactive") or job.get("save_ctx") == "interactive":
                 sim = InteractiveContext(setup=False, **kw)
                 probe.sim = sim
                 sim.setup()
+            elif mode == "run_simulation" and job.get("save_at") is None and job.get("crash_at") is None:
+                # literally the one-call API: setup, initialize_simulants, run, finalize, report
+                sim = SimulationContext(**kw)
+                probe.sim = sim
+                sim.run_simulation()
+                out["context_name"] = sim.name
+                out["digests"] = probe.digests
+                out["events"] = probe.events
+                out["results"] = results_digest(sim.get_results())
+                out["final_table"] = table_digest(sim._population.get_population(True))
+                if job.get("log_draws"):
+                    out["draws"] = drawlog.LOG
+                json.dump(out, sys.stdout)
+                return
             else:
                 sim = SimulationContext(**kw)
                 probe.sim = sim
                 sim.setup()
                 sim.initialize_simulants()
             out["context_name"] = sim.name
-            probe.digests.append("init:" + table_digest(sim._population.get_population(True)))
             if job.get("crash_at") is not None:
                 # the engine's own backup path: run(backup_path, backup_freq) writes a backup after every step; the
                 # process "crashes" at the start of step `crash_at`, leaving the backup of the previous boundary on disk
